@@ -265,6 +265,17 @@ var libSpecial = map[string]bool{
 	"fmt.Errorf":                               true,
 	"fmt.Sprintf":                              true,
 	"(*sync.Once).Do":                          true,
+	"(*bytes.Buffer).Write":                    true,
+	"(*bytes.Buffer).Bytes":                    true,
+	"(*bytes.Buffer).Len":                      true,
+	"encoding/binary.Write":                    true,
+	"github.com/minio/highwayhash.New64":       true,
+}
+
+func (vc *VC) regBuf() {
+	vc.regComp("BufLen", "(Array Int Int)")
+	vc.regComp("BufData", "(Array Int (Array Int Int))")
+	vc.setElem("BufData", types.Typ[types.Uint8], 2)
 }
 
 func libSpecialWrites(f *Frame, name string, c *ssa.CallCommon) ([]string, bool) {
@@ -274,10 +285,36 @@ func libSpecialWrites(f *Frame, name string, c *ssa.CallCommon) ([]string, bool)
 	case "time.Now", "time.Since":
 		f.vc.regComp("now", "Int")
 		return []string{"now"}, false
+	case "(*bytes.Buffer).Write", "encoding/binary.Write":
+		f.vc.regBuf()
+		return []string{"BufLen", "BufData"}, false
+	case "(*bytes.Buffer).Bytes":
+		return []string{"next", f.vc.regMem(types.Typ[types.Uint8])}, false
+	case "github.com/minio/highwayhash.New64":
+		return []string{"next"}, false
 	case "(*sync.Once).Do":
 		return nil, true
 	}
 	return nil, false
+}
+
+// bytesOf: the n big-endian bytes of an unsigned value as fresh byte variables (linear; friendlier than div/mod)
+func (f *Frame) bytesOf(v string, n int) []string {
+	vc := f.vc
+	var bs []string
+	sum := ""
+	for i := 0; i < n; i++ {
+		b := vc.fresh("byte", "Int")
+		vc.assume(fmt.Sprintf("(and (<= 0 %s) (< %s 256))", b, b))
+		bs = append(bs, b)
+		if sum == "" {
+			sum = b
+		} else {
+			sum = fmt.Sprintf("(+ (* 256 %s) %s)", sum, b)
+		}
+	}
+	vc.assume(fmt.Sprintf("(= %s %s)", v, sum))
+	return bs
 }
 
 func (f *Frame) byteAt(s Val, i int) string {
@@ -322,8 +359,9 @@ func (f *Frame) libCall(name string, fn *ssa.Function, c *ssa.CallCommon, args [
 		comp := vc.regMem(types.Typ[types.Uint8])
 		m := vc.get(f.cur, comp)
 		blk := sel(m, "(s-ref "+s.T+")")
+		bs := f.bytesOf(v.T, 8)
 		for i := 0; i < 8; i++ {
-			blk = store(blk, fmt.Sprintf("(+ (s-off %s) %d)", s.T, i), fmt.Sprintf("(mod (div %s %s) 256)", v.T, pow2(int64(8*(7-i)))))
+			blk = store(blk, fmt.Sprintf("(+ (s-off %s) %d)", s.T, i), bs[i])
 		}
 		vc.set(f.cur, comp, store(m, "(s-ref "+s.T+")", blk))
 		return nil, true
@@ -394,6 +432,62 @@ func (f *Frame) libCall(name string, fn *ssa.Function, c *ssa.CallCommon, args [
 			}
 		}
 		return []Val{{s, "Str"}}, true
+	case "(*bytes.Buffer).Write":
+		vc.regBuf()
+		vc.trust("bytes.Buffer modelled as a ghost byte sequence (Write appends, Bytes returns the contents)")
+		b, s := args[0], args[1]
+		comp := vc.regMem(types.Typ[types.Uint8])
+		m := vc.get(f.cur, comp)
+		bl, bd := vc.get(f.cur, "BufLen"), vc.get(f.cur, "BufData")
+		n := sel(bl, b.T)
+		nd := vc.fresh("buf_data", "(Array Int Int)")
+		vc.assume(fmt.Sprintf("(forall ((i Int)) (! (= (select %s i) (ite (and (<= %s i) (< i (+ %s (s-len %s)))) (select (select %s (s-ref %s)) (+ (s-off %s) (- i %s))) (select (select %s %s) i))) :pattern ((select %s i))))",
+			nd, n, n, s.T, m, s.T, s.T, n, bd, b.T, nd))
+		vc.set(f.cur, "BufData", store(bd, b.T, nd))
+		vc.set(f.cur, "BufLen", store(bl, b.T, fmt.Sprintf("(+ %s (s-len %s))", n, s.T)))
+		return []Val{{"(s-len " + s.T + ")", "Int"}, {"inil", "Iface"}}, true
+	case "(*bytes.Buffer).Len":
+		vc.regBuf()
+		return []Val{{sel(vc.get(f.cur, "BufLen"), args[0].T), "Int"}}, true
+	case "(*bytes.Buffer).Bytes":
+		vc.regBuf()
+		b := args[0]
+		comp := vc.regMem(types.Typ[types.Uint8])
+		r := vc.allocRef(f.cur, "buf_bytes", f.guard)
+		n := sel(vc.get(f.cur, "BufLen"), b.T)
+		vc.set(f.cur, comp, store(vc.get(f.cur, comp), r, sel(vc.get(f.cur, "BufData"), b.T)))
+		cp := vc.fresh("buf_cap", "Int")
+		vc.assume(fmt.Sprintf("(>= %s %s)", cp, n))
+		return []Val{vc.define("buf_bytes", Val{fmt.Sprintf("(mk-slice %s 0 %s %s)", r, n, cp), "Slice"})}, true
+	case "encoding/binary.Write":
+		// binary.Write(buf, binary.BigEndian, uint64) on a *bytes.Buffer appends the 8 bytes, most significant first
+		wmi, ok1 := c.Args[0].(*ssa.MakeInterface)
+		dmi, ok2 := c.Args[2].(*ssa.MakeInterface)
+		omi, ok3 := c.Args[1].(*ssa.MakeInterface)
+		if ok1 && ok2 && ok3 && wmi.X.Type().String() == "*bytes.Buffer" && omi.X.Type().String() == "encoding/binary.bigEndian" {
+			if bt, ok := dmi.X.Type().Underlying().(*types.Basic); ok && bt.Kind() == types.Uint64 {
+				vc.regBuf()
+				vc.trust("encoding/binary.Write(buf, BigEndian, uint64) appends the 8 big-endian bytes")
+				b, v := f.val(wmi.X), f.val(dmi.X)
+				bl, bd := vc.get(f.cur, "BufLen"), vc.get(f.cur, "BufData")
+				n := sel(bl, b.T)
+				arr := sel(bd, b.T)
+				bs := f.bytesOf(v.T, 8)
+				for i := 0; i < 8; i++ {
+					arr = store(arr, fmt.Sprintf("(+ %s %d)", n, i), bs[i])
+				}
+				vc.set(f.cur, "BufData", store(bd, b.T, arr))
+				vc.set(f.cur, "BufLen", store(bl, b.T, "(+ "+n+" 8)"))
+				return []Val{{"inil", "Iface"}}, true
+			}
+		}
+		vc.noteUncontracted(name)
+		f.havocReachable(c.Args)
+		return f.freshResults(c, "binwrite"), true
+	case "github.com/minio/highwayhash.New64":
+		h := vc.fresh("hash64", "Iface")
+		vc.assume(not(eq(h, "inil")))
+		return []Val{{h, "Iface"}, {"inil", "Iface"}}, true
 	case "(*sync.Once).Do":
 		// the function runs at most once; effects: either nothing or the function's effects
 		vc.noteUncontracted("sync.Once.Do body")
